@@ -338,7 +338,7 @@ REST_MODELS = [
 ]
 
 
-def rest(U, rep, tier):
+def rest(U, rep, tier, rule='R4.5', backends=('spring', 'positional', 'generalized')):
   """R4.5 (Newton's first law): a system at rest (qd = 0) in a joint configuration strictly inside its limits, without
   gravity, control, contact or joint springs, is still at rest after one step.  pipeline.init / step are executed by
   random interpretation on consistent states (x = forward(q)); the ranges are symbolic (they need not contain 0) and
@@ -347,7 +347,7 @@ def rest(U, rep, tier):
   from braxlint import refkin
   import os
   s0 = int(os.environ.get('VERIF_SEED', '0') or 0)
-  for backend in ('spring', 'positional', 'generalized'):
+  for backend in backends:
     f = U.func('brax.%s.pipeline.step' % backend)
     for name, links in REST_MODELS:
       if backend == 'positional' and any(len(l['joints']) > 1 for l in links):
@@ -439,11 +439,11 @@ def rest(U, rep, tier):
           found = verdict
           break
       if undecided:
-        rep.note('R4.5 [%s, %s]: %d trial(s) undecided (every failing point depended on a value the interpreter leaves uninterpreted: '
+        rep.note(rule + ' [%s, %s]: %d trial(s) undecided (every failing point depended on a value the interpreter leaves uninterpreted: '
                  'a square root without a root in GF(p), an inverse-trigonometric atom); not counted' % (backend, name, undecided))
         if not found:
           continue
-      rep.check(not found, 'R4.5', '%s pipeline: a system at rest inside its limits stays at rest [%s]' % (backend, name),
+      rep.check(not found, rule, '%s pipeline: a system at rest inside its limits stays at rest [%s]' % (backend, name),
                 lambda: 'after one step from rest (no gravity, control, contact, joint springs; every coordinate strictly inside its '
                 'symbolic range) the state moves: %s are not zero / unchanged' % ', '.join(found), where=f.where(),
                 construct="init(q, 0) then step: xd' == 0, qd' == 0, x' == x  [ranges symbolic, need not contain 0]")
